@@ -1,8 +1,8 @@
 (* Dispatch/DC01.v — entry points of the ECDSA model and of the specs (Spec/Ecdsa.v,
    Spec/Rfc6979.v) on secp256k1 for the correspondence check. *)
 From Coq Require Import String.
-From V Require Import Base.Prelude Base.Ints Base.Disp Model.Pecc Proofs.GroupHyp
-  Spec.Ecdsa Spec.Rfc6979.
+From V Require Import Base.Prelude Base.Ints Base.Disp Model.Pecc Model.EcdsaApi Proofs.GroupHyp
+  Spec.Ecdsa Spec.Rfc6979 Spec.Rfc6979Seq.
 Open Scope string_scope.
 Open Scope Z_scope.
 
@@ -33,9 +33,60 @@ Definition weaken (d : bytes) : bytes :=
   else if t =? 3 then repeatz 0 32
   else d.
 
+Definition vseq (o : option (nat * Z)) : val :=
+  match o with Some (i, k) => VL [VI (Z.of_nat i); VI k] | None => VErr end.
+
+(* the outer API of Model/EcdsaApi.v: sign(z).der(), sign_message, verify(z, Signature.parse(b)),
+   verify_message, S256Point.parse(sec).verify(...), Signature.parse(b).der(); and the sequence form of RFC 6979
+   (Spec/Rfc6979Seq.v), which also returns the number of rejected candidates *)
+Definition dispatch_api (H : oracle) (fn : list Z) (args : list val) : option val :=
+  let hm := o_hmac_sha256 H in
+  let hw := fun k m => weaken (o_hmac_sha256 H k m) in
+  let h256 := o_hash256 H in
+  if fn_is "sign_der" fn then
+    Some match args with [VI d; VI z] => vres_b (sign_der K1 hm fuel_k d z) | _ => bad_args end
+  else if fn_is "sign_message" fn then
+    Some match args with [VI d; VB m] => vres vrs (sign_message K1 hm h256 fuel_k d m) | _ => bad_args end
+  else if fn_is "sign_message_der" fn then
+    Some match args with [VI d; VB m] => vres_b (sign_message_der K1 hm h256 fuel_k d m) | _ => bad_args end
+  else if fn_is "verify_der" fn then
+    Some match args with
+    | [pv; VI z; VB b] =>
+        match arg_point pv with
+        | Some rp => vres_bool (P <- rp ;; verify_der K1 P z b)
+        | None => bad_args
+        end
+    | _ => bad_args end
+  else if fn_is "verify_message" fn then
+    Some match args with
+    | [pv; VB m; VI r; VI s] =>
+        match arg_point pv with
+        | Some rp => vres_bool (P <- rp ;; verify_message K1 h256 P m r s)
+        | None => bad_args
+        end
+    | _ => bad_args end
+  else if fn_is "verify_message_der" fn then
+    Some match args with
+    | [pv; VB m; VB b] =>
+        match arg_point pv with
+        | Some rp => vres_bool (P <- rp ;; verify_message_der K1 h256 P m b)
+        | None => bad_args
+        end
+    | _ => bad_args end
+  else if fn_is "verify_wire" fn then
+    Some match args with [VB sb; VI z; VB b] => vres_bool (verify_wire K1 sb z b) | _ => bad_args end
+  else if fn_is "der_reencode" fn then
+    Some match args with [VB b] => vres_b (der_reencode b) | _ => bad_args end
+  else if fn_is "rfc6979_seq" fn then
+    Some match args with [VI d; VB h1] => vseq (rfc6979_seq (cn K1) hm fuel_k d h1) | _ => bad_args end
+  else if fn_is "rfc6979_seq_weak" fn then
+    Some match args with [VI d; VB h1] => vseq (rfc6979_seq (cn K1) hw fuel_k d h1) | _ => bad_args end
+  else None.
+
 Definition dispatch (H : oracle) (fn : list Z) (args : list val) : val :=
   let hm := o_hmac_sha256 H in
   let hw := fun k m => weaken (o_hmac_sha256 H k m) in
+  match dispatch_api H fn args with Some v => v | None =>
   if fn_is "det_k_weak" fn then
     match args with [VI d; VI z] => vres_i (deterministic_k K1 hw fuel_k d z) | _ => bad_args end
   else if fn_is "rfc6979_weak" fn then
@@ -76,4 +127,5 @@ Definition dispatch (H : oracle) (fn : list Z) (args : list val) : val :=
     match args with [VI r; VI s] => vres_b (der r s) | _ => bad_args end
   else if fn_is "der_parse" fn then
     match args with [VB b] => vres vrs (der_parse b) | _ => bad_args end
-  else bad_args.
+  else bad_args
+  end.
